@@ -5,6 +5,8 @@
 int qsv_fail;
 static struct { char name[96]; long val; } tab[4096];
 static int ntab;
+static long seq[65536];
+static int nseq, pseq;
 void qsv_load(const char *file)
 {
 	char line[256];
@@ -14,6 +16,7 @@ void qsv_load(const char *file)
 		char *eq = strchr(line, '=');
 		if (!eq || ntab >= 4096) continue;
 		*eq = 0;
+		if (!strcmp(line, "@")) { if (nseq < 65536) seq[nseq++] = strtol(eq + 1, 0, 0); continue; }
 		strncpy(tab[ntab].name, line, 95);
 		tab[ntab].val = strtol(eq + 1, 0, 0);
 		ntab++;
@@ -26,3 +29,4 @@ long qsv_in(const char *name)
 	for (i = 0; i < ntab; i++) if (!strcmp(tab[i].name, name)) return tab[i].val;
 	return 0;
 }
+long qsv_next(void) { return pseq < nseq ? seq[pseq++] : 0; }
